@@ -35,15 +35,20 @@ import (
 // SN: references held in slice elements, map values and array elements.
 type SN struct {
 	Name string
+	MM   map[string]map[string]*SN // map of maps: the inner maps are referenced again by the M / Ms fields visited later
 	Kids []*SN
 	M    map[string]*SN
 	Arr  [2]*SN
+	Ms   []map[string]*SN
 	Ch   chan int
 	priv int
 }
 
 // IN: references held in interface values (directly, in a slice, in a map).
 type IN struct {
+	PI   *int           // typed references to pointers to NON-structs, visited before the
+	PL   *[]interface{} // interface values below that may hold the very same pointers
+	PM   *map[string]interface{}
 	Any  interface{}
 	Anys []interface{}
 	MA   map[string]interface{}
@@ -117,8 +122,15 @@ func buildSN(g *gen, n int) []*SN {
 		}
 		return nodes[t]
 	}
-	pool := make([]map[string]*SN, 1+n/3)
+	pool := make([]map[string]*SN, 2+n/3)
 	chans := []chan int{make(chan int), make(chan int)}
+	poolMap := func() map[string]*SN {
+		pi := r.Intn(len(pool))
+		if pool[pi] == nil {
+			pool[pi] = map[string]*SN{}
+		}
+		return pool[pi]
+	}
 	for i, nd := range nodes {
 		if k := r.Intn(4); k > 0 {
 			s := make([]*SN, k, k+r.Intn(2))
@@ -154,6 +166,29 @@ func buildSN(g *gen, n int) []*SN {
 		if r.Chance(1, 4) {
 			nd.Ch = chans[r.Intn(2)]
 		}
+		if r.Chance(1, 3) {
+			// a map of maps over the shared pool (distinct inner maps, possibly one twice, possibly nil)
+			nd.MM = map[string]map[string]*SN{}
+			for j, k := 0, 1+r.Intn(3); j < k; j++ {
+				if r.Chance(1, 6) {
+					nd.MM[string(rune('x'+j))] = nil
+				} else {
+					nd.MM[string(rune('x'+j))] = poolMap()
+				}
+			}
+		}
+		if r.Chance(1, 4) {
+			k := 1 + r.Intn(2)
+			nd.Ms = make([]map[string]*SN, k, k+r.Intn(2))
+			for j := range nd.Ms {
+				nd.Ms[j] = poolMap()
+			}
+		}
+	}
+	for pi, m := range pool {
+		if m != nil && r.Chance(1, 2) {
+			m["id"] = nodes[pi%n] // make the pooled maps pairwise different
+		}
 	}
 	for _, m := range pool {
 		if m == nil {
@@ -181,12 +216,33 @@ func buildIN(g *gen, n int) []*IN {
 		}
 		return pool[pi]
 	}
+	// pointers to non-structs, shared between typed fields and interface values
+	ints := []*int{new(int), new(int)}
+	*ints[0], *ints[1] = 7, 8
+	str := new(string)
+	*str = "p"
+	lists := make([]*[]interface{}, 2)
+	pmaps := make([]*map[string]interface{}, 2)
+	for j := range lists {
+		l := make([]interface{}, 1+r.Intn(2), 3)
+		lists[j] = &l
+		m := map[string]interface{}{}
+		pmaps[j] = &m
+	}
 	var payload func(i, depth int) interface{}
 	payload = func(i, depth int) interface{} {
 		if g.r.Chance(g.pnil, 8) {
 			return nil
 		}
-		switch r.Intn(14) {
+		switch r.Intn(19) {
+		case 14:
+			return ints[r.Intn(2)]
+		case 15:
+			return str
+		case 16, 17:
+			return lists[r.Intn(2)]
+		case 18:
+			return pmaps[r.Intn(2)]
 		case 0:
 			return r.Intn(100)
 		case 1:
@@ -228,7 +284,32 @@ func buildIN(g *gen, n int) []*IN {
 		}
 		return nodes[i]
 	}
+	for j := range lists {
+		// contents of the pointed-to slices and maps: payloads, back references to
+		// the pointers themselves (cycles through *[]interface{} / *map) included
+		for k := range *lists[j] {
+			(*lists[j])[k] = payload(r.Intn(n), 1)
+		}
+		if r.Chance(1, 3) {
+			(*lists[j])[0] = lists[r.Intn(2)]
+		}
+		if r.Chance(1, 2) {
+			(*pmaps[j])["v"] = payload(r.Intn(n), 1)
+		}
+		if r.Chance(1, 3) {
+			(*pmaps[j])["back"] = pmaps[r.Intn(2)]
+		}
+	}
 	for i, nd := range nodes {
+		if r.Chance(1, 3) {
+			nd.PI = ints[r.Intn(2)]
+		}
+		if r.Chance(1, 3) {
+			nd.PL = lists[r.Intn(2)]
+		}
+		if r.Chance(1, 4) {
+			nd.PM = pmaps[r.Intn(2)]
+		}
 		nd.Any = payload(i, 0)
 		if k := r.Intn(4); k > 0 {
 			s := make([]interface{}, k, k+r.Intn(2))
